@@ -334,7 +334,38 @@ def R5(w):
     return ok, "no answer to the INIT through the follower within 1.5 s; the leader answers it"
 
 
-ALL = {"R1": R1, "R2": R2, "R3": R3, "R4": R4, "R5": R5}
+def R6(w):
+    """will commands registered through the follower: when the client disconnects, Close writes them to the leader — and the link's
+    own reader, relaying the leader's answers to the client that has gone, can close the link under it: wills are lost"""
+    n, lost_runs, worst = 60, 0, 0
+    for attempt in range(12):
+        base = 6000 + attempt * 100
+        f = Bin(w.follower_port)
+        f.send(lock_frame(1, base, 61, base, timeout=0, expried=5))  # opens the link
+        f.frame()
+        for i in range(n):
+            f.send(lock_frame(8, base + 1 + i, 62, base + 1 + i, timeout=0, expried=8))  # WILL_LOCK (type 8)
+        f.send(bytes([0x56, 1, 5]) + id16(base + 99) + b"\x00" * 45)  # PING: everything before it has been handled
+        f.frame()
+        f.close()
+        time.sleep(0.5)
+        o = Bin(w.leader_port)
+        held = 0
+        for i in range(n):
+            o.send(lock_frame(1, base + 1 + i, 63, base + 1 + i, timeout=0, expried=1))
+            r = o.frame()
+            if r and r["result"] != 0:
+                held += 1
+        o.close()
+        if held < n:
+            lost_runs += 1
+            worst = max(worst, n - held)
+            say("R6", "attempt %d: %d will LOCKs registered, the connection closed: only %d of the keys are held at the leader" % (attempt, n, held))
+    ok = lost_runs > 0
+    return ok, "in %d of 12 disconnects some registered wills never reached the leader (up to %d of %d lost)" % (lost_runs, worst, n)
+
+
+ALL = {"R1": R1, "R2": R2, "R3": R3, "R4": R4, "R5": R5, "R6": R6}
 
 
 def main():
